@@ -141,12 +141,14 @@ PLAN["C14"] = other(
 PLAN["C15"] = other(
     "Deductive: getValuesInInterval (start <= t <= end, order kept), intervalOverlapCheck (no/time threshold, "
     "boundaryInclusive), find (exact / substring, both tier classes: exactly the matching indices, in order) and "
-    "getNonEntries (exactly the positive-length unlabelled stretches of [0, maxTimestamp], ordered, in span) and "
+    "getNonEntries (exactly the positive-length unlabelled stretches of [0, maxTimestamp], ordered, in span), "
+    "invertIntervalList (the complement of a sorted disjoint interval list within optional bounds: exactly the "
+    "positive-length uncovered stretches, in order) and "
     "validate() of both tier classes in the non-raising modes (False exactly when an entry is invalid, out of span "
     "or out of order - for arbitrary, not necessarily well-formed tiers; Textgrid.validate for <= 2 tiers: False "
     "exactly when a tier's span differs from the textgrid's or a tier is invalid) and timestamps (strictly sorted, "
     "exactly the boundary times) proved for all inputs. Bounded: "
-    "find with regular expressions, getValuesInIntervals/AtPoints, invertIntervalList, equality and "
+    "find with regular expressions, getValuesInIntervals/AtPoints, invertIntervalList on unsorted lists, equality and "
     "reportingMode='error' on exhaustive small grids.",
     "Queries agree with their definitions: eight queries proved for all inputs, the rest on the stated bounded "
     "domain.",
@@ -165,9 +167,17 @@ PLAN["C16"] = other(
     "files and operation sequences checked against the sample model on the stated bounded domain.",
     ["c16_wav_model"])
 PLAN["C17"] = other(
-    "Deductive: Wav._getIndexAtTime and the interval classifier are proved. Bounded: readFramesAtTimes, extractSubwav, "
-    "splitAudioOnTier and the generators against the sample model (files under out/tmp).",
-    "Interval-driven extraction keeps and drops exactly the marked samples on the stated bounded domain.",
+    "Deductive: Wav._getIndexAtTime and the interval classifier are proved; the keep / delete partition is proved for "
+    "interval lists of any length: utils.invertIntervalList returns exactly the positive-length stretches of "
+    "[minValue, maxValue] not covered by a sorted, disjoint list (head stretch, gaps between non-touching neighbours, "
+    "tail stretch, in order; an absent bound means no stretch on that side; ArgumentError iff an interval has "
+    "non-positive length), and audio._computeKeepDeleteIntervals returns the given stretches labelled as given plus "
+    "that complement labelled the other way, in time order, from the recording's start to its end, rejects both lists "
+    "at once and keeps everything when neither is given. Bounded: readFramesAtTimes, extractSubwav, "
+    "splitAudioOnTier and the generators against the sample model (files under out/tmp); that consecutive labelled "
+    "stretches share their boundaries.",
+    "The keep / delete partition is proved for all sorted disjoint interval lists inside the recording; assembly of "
+    "the samples, the written files and the generators on the stated bounded domain.",
     ["c17_extraction"])
 PLAN["C18"] = other(
     "Deductive: the search inside one block of samples - _getNearestZero, _getZeroThresholdCrossing and "
@@ -501,4 +511,16 @@ CANARIES = [
     {"name": "pitch-jump-strict", "props": ["C20"], "file": "praatio/pitch_and_intensity.py",
      "target": "praatio.pitch_and_intensity.detectPitchErrors",
      "old": "(lastPitch >= ceilingCutoff)", "new": "(lastPitch > ceilingCutoff)"},
+    {"name": "invert-keep-touching", "props": ["C15", "C17"], "file": "praatio/utilities/utils.py",
+     "target": "praatio.utilities.utils.invertIntervalList",
+     "old": "invList = [interval for interval in invList if interval[0] != interval[1]]", "new": "invList = list(invList)",
+     "config": ["minValue=None,maxValue=None"]},
+    {"name": "invert-tail-sentinel", "props": ["C17", "C15"], "file": "praatio/utilities/utils.py",
+     "target": "praatio.utilities.utils.invertIntervalList",
+     "old": "inputList.append((maxValue, maxValue + 1))", "new": "inputList.append((maxValue + 1, maxValue + 2))",
+     "config": ["minValue=None,maxValue=sym"]},
+    {"name": "keepdelete-labels-swapped", "props": ["C17"], "file": "praatio/audio.py",
+     "target": "praatio.audio._computeKeepDeleteIntervals",
+     "old": "        (start, end, _DELETE) for start, end in computedDeleteIntervals", "new": "        (start, end, _KEEP) for start, end in computedDeleteIntervals",
+     "config": ["keep=None,delete=sym"]},
 ]
